@@ -260,6 +260,11 @@ def run(ctx):
         graph_replay(ctx, 4, 2, 3, 2, 8)
     else:
         graph_replay(ctx, 5, 2, 4, 2, 24)
+    # the composed workspace model: exhaustive for small constants, then simulated mixed histories (attach, gaps, connect,
+    # controller assignment, failed loads, save+load, note.mod) replayed through the public API without state injection
+    from .. import system
+    system.exhaustive(ctx, q)
+    system.simulate_and_replay(ctx, 120 if q else 2500, 12 if q else 20)
     rnd = ctx.rnd
     traces = []
     nt, ln = (150, 50) if q else (2000, 100)
